@@ -35,6 +35,25 @@ def handle : R String := do
         let σ := abs v
         let open_ := if i.aliased then 2 else if i.mulHighIn σ then 1 else 0
         pure s!"ok {open_} {wSpecState (Spec.exec i σ) addrs}"
+  | "run" => do
+    -- run <fuel> <program> <vm>: VirtualMachine.run with at most fuel iterations
+    let fuel ← nat
+    let p ← program
+    let v ← vm
+    match Run.run p fuel v with
+    | .ok v' => pure s!"ok {wBool (Run.finished p v')} {wBool (wfb v')} {wVM v'}"
+    | .error e => pure s!"err {e.name}"
+  | "parseinit" => do
+    let s ← str
+    match Cli.parseInit s with
+    | some l => pure s!"ok {wList wPair l}"
+    | none => pure "none"
+  | "pyint" => do
+    let base ← nat
+    let s ← str
+    match Py.parseInt s base with
+    | some v => pure s!"ok {v}"
+    | none => pure "err"
   | "wf" => do
     let v ← vm
     pure (wBool (wfb v))
